@@ -47,7 +47,7 @@ PROPS = {
     "C04": {
         "title": "AES key expansion equals FIPS-197; AES-CBC equals SP 800-38A, all key sizes",
         "variant": "default",
-        "quick": {"cases": 800000, "opts": ["giants=2"]},
+        "quick": {"cases": 800000, "opts": ["giants=3"]},
         "thorough": {"cases": 3000000, "opts": ["giants=6"]},
         "rule": "rapidcheck cases over {128,192,256} x entry (keyexp {sse, avx, legacy, isal_}, cbc enc {x4, x8, legacy, isal_}, cbc dec {sse, avx, vaes_avx512, "
                 "legacy, isal_}); keys/IV/data from a seed; N blocks in {1..80 dense, 255..257, 81..1200, 4096}; in place / out of place; IV and schedules "
@@ -235,7 +235,7 @@ PROPS = {
     "C15": {
         "title": "Hash length accounting stays exact across the 2^29- and 2^32-byte totals",
         "variant": "default",
-        "quick": {"cases": 48, "opts": ["p32=10", "full32=1"], "budget_s": 1200},
+        "quick": {"cases": 192, "opts": ["p32=10", "full32=1"], "budget_s": 1200},
         "thorough": {"cases": 480, "opts": ["p32=50", "full32=1"], "budget_s": 6000},
         "rule": "rapidcheck cases over algorithm x family: every worker owns a contiguous slice of the algorithm-sorted family list (28 ctx families + legacy + "
                 "isal_) and takes its families round-robin, so EVERY family is exercised in every run (3 cases per worker in the quick tier); 1..3 contexts of one "
